@@ -119,9 +119,11 @@ func treeNodes(w *world, q string, vi *scheduler.VerifInvocation, items *[]strin
 		parked = strings.Join(parts, ",")
 	}
 	// firstQueuedOperationPriority of an invocation that is not queued is a leftover that depends on
-	// the order of `range t.operations`; it is never read
+	// the order of `range t.operations`; it is never read.  The root's is never read either (it has no
+	// siblings) and is refreshed by increment/decrementExecutingWorkersCount only, not by enqueue /
+	// removeQueuedFromInvocation, so it shows leftovers that depend on the order of cancellations.
 	prio := "-"
-	if len(ops) > 0 || len(qk) > 0 {
+	if (len(ops) > 0 || len(qk) > 0) && len(vi.Keys) > 0 {
 		prio = strconv.Itoa(int(vi.FirstQueuedOperationPriority))
 	}
 	*items = append(*items, fmt.Sprintf("n %s p=%s ops=%s qk=%s ik=%s prio=%s ex=%d/%d st=%d co=%d idle=%d parked=%s",
@@ -422,10 +424,10 @@ func treeMonitor(r *run, st *scheduler.VerifState) {
 				return
 			}
 			delete(want, p)
-			// Probe (off by default, TREE_STALE_PRIORITY=1): the documented meaning of
+			// notes/findings/C04-stale-first-priority.md (fixed in /repo): the documented meaning of
 			// firstQueuedOperationPriority for an invocation without directly queued operations is the
 			// priority of the operation its first queued child would hand out next.
-			if os.Getenv("TREE_STALE_PRIORITY") != "" && len(vi.Keys) > 0 && len(vi.QueuedOperations) == 0 && len(vi.QueuedChildren) > 0 {
+			if len(vi.Keys) > 0 && len(vi.QueuedOperations) == 0 && len(vi.QueuedChildren) > 0 {
 				first := pathStr(w, vi.QueuedChildren[0])
 				for i := range vi.Children {
 					if pathStr(w, vi.Children[i].Keys) == first && vi.Children[i].FirstQueuedOperationPriority != vi.FirstQueuedOperationPriority {
